@@ -291,3 +291,12 @@ func idxS(u []string, v string) int {
 	}
 	return -1
 }
+
+func idxStr(u []string, v string) int {
+	for i, x := range u {
+		if x == v {
+			return i
+		}
+	}
+	panic("idxStr: value not in universe: " + v)
+}
